@@ -1540,9 +1540,9 @@ def run_case(ctx, case):
 
 LEVEL_TEXT = ('Runtime monitoring: every string of length <= 4 (quick) / <= 5 (thorough) over a 14-symbol alphabet (version '
               'characters plus space, LF, "_", non-ASCII letter and digits), every string of length 5..7 / 6..8 over "1 a : -", '
-              'and 8e4 / 4e6 seeded structured hostile strings are pushed through the live Version/BaseVersion constructor and '
+              'and 7.6e4 / 4e6 seeded structured hostile strings are pushed through the live Version/BaseVersion constructor and '
               'judged by an independent three-way Policy-5.6.12 classifier (accept / reject / unspecified) and the Policy '
-              'decomposition; 2e4 / 1.2e6 assignment histories (<= 6 assignments of valid and invalid values incl. None and '
+              'decomposition; 1.9e4 / 1.2e6 assignment histories (<= 6 assignments of valid and invalid values incl. None and '
               'ints to all five magic attributes) run against a 3-tuple model, with a contract on BaseVersion.__setattr__ '
               '(normal and exceptional exit) watching every call.  The same histories exercise state between objects: a per-shard '
               'pool of 36 initial strings constructed over and over, a watched sibling / long-lived object per string, copy '
